@@ -36,7 +36,10 @@ const (
 	TweakLowerName     = 2 // CompanyName lower-cased
 	TweakDiscretionary = 3 // CompanyDiscretionaryData changed: not an identifying field
 	TweakDescDate      = 4 // CompanyDescriptiveDate changed: not an identifying field
-	numTweaks          = 5
+	TweakDescription   = 5 // CompanyEntryDescription changed: an identifying field, the header is no longer Equal
+	TweakEffectiveDate = 6 // EffectiveEntryDate changed: identifying
+	TweakCompanyID     = 7 // CompanyIdentification changed in header and control: identifying
+	numTweaks          = 8
 )
 
 // Spec describes a list of input files reproducibly.  Merging shares entries
@@ -45,6 +48,10 @@ type Spec struct {
 	Opts   gen.Opts `json:"opts"`
 	Seeds  []uint64 `json:"seeds"`  // one per file; equal seeds = identical files
 	Tweaks []int    `json:"tweaks"` // one per file
+	// Reroute, one per file: 0 keep the pool route; 1 replace the destination, 2 replace
+	// the origin by a fixed other routing number, so that lists contain files
+	// that differ in the origin only or in the destination only.
+	Reroute []int `json:"reroute"`
 	// SamePointer: files with equal seed and tweak are passed as the very same *ach.File.
 	SamePointer bool `json:"same_pointer,omitempty"`
 }
@@ -58,7 +65,7 @@ func (s Spec) Files(order []int) ([]*ach.File, error) {
 	out := make([]*ach.File, 0, n)
 	made := map[string]*ach.File{}
 	for _, i := range order {
-		k := fmt.Sprintf("%d/%d", s.Seeds[i], s.Tweaks[i])
+		k := fmt.Sprintf("%d/%d/%d", s.Seeds[i], s.Tweaks[i], s.reroute(i))
 		if s.SamePointer && made[k] != nil {
 			out = append(out, made[k])
 			continue
@@ -70,10 +77,37 @@ func (s Spec) Files(order []int) ([]*ach.File, error) {
 		if err := ApplyTweak(f, s.Tweaks[i]); err != nil {
 			return nil, err
 		}
+		if err := ApplyReroute(f, s.reroute(i)); err != nil {
+			return nil, err
+		}
 		made[k] = f
 		out = append(out, f)
 	}
 	return out, nil
+}
+
+func (s Spec) reroute(i int) int {
+	if i < len(s.Reroute) {
+		return s.Reroute[i]
+	}
+	return 0
+}
+
+// ApplyReroute replaces the destination (1) or the origin (2) of the file header;
+// neither takes part in a control total.
+func ApplyReroute(f *ach.File, how int) error {
+	switch how {
+	case 0:
+		return nil
+	case 1:
+		f.Header.ImmediateDestination = "231380104"
+	case 2:
+		f.Header.ImmediateOrigin = "121042882"
+	}
+	if err := f.Validate(); err != nil {
+		return fmt.Errorf("reroute %d made the file invalid: %w", how, err)
+	}
+	return nil
 }
 
 // ApplyTweak modifies batch header fields outside every control total and re-validates.
@@ -99,6 +133,26 @@ func ApplyTweak(f *ach.File, tweak int) error {
 				bh.CompanyDescriptiveDate = ""
 			} else {
 				bh.CompanyDescriptiveDate = "TWK"
+			}
+		case TweakDescription:
+			// RCK and ENR prescribe the description; PRENOTE batches are recognised by it
+			if bh.StandardEntryClassCode != ach.RCK && bh.StandardEntryClassCode != ach.ENR && !strings.EqualFold(bh.CompanyEntryDescription, "PRENOTE") {
+				bh.CompanyEntryDescription = "TWKDESC"
+			}
+		case TweakEffectiveDate:
+			if bh.EffectiveEntryDate == "300102" {
+				bh.EffectiveEntryDate = "300103"
+			} else {
+				bh.EffectiveEntryDate = "300102"
+			}
+		case TweakCompanyID:
+			id := "7" + strings.Repeat("0", 8)
+			if bh.CompanyIdentification == id {
+				id = "8" + strings.Repeat("0", 8)
+			}
+			bh.CompanyIdentification = id
+			if bc := b.GetControl(); bc != nil {
+				bc.CompanyIdentification = id
 			}
 		}
 	}
@@ -202,8 +256,13 @@ func DrawSpec(r *gen.Rand, maxFiles int) Spec {
 		if r.Chance(1, 4) {
 			tweak = r.Range(1, numTweaks-1)
 		}
+		reroute := 0
+		if r.Chance(1, 4) {
+			reroute = r.Range(1, 2)
+		}
 		s.Seeds = append(s.Seeds, seed)
 		s.Tweaks = append(s.Tweaks, tweak)
+		s.Reroute = append(s.Reroute, reroute)
 	}
 	s.SamePointer = n >= 2 && r.Chance(1, 10)
 	return s
@@ -654,7 +713,7 @@ func Slug(s string) string {
 // SpecInput renders a spec and the files it generates for a failure report.
 func SpecInput(s Spec, order []int, cond ach.Conditions) map[string]any {
 	in := map[string]any{"spec": s, "order": order, "conditions": cond,
-		"replay": "files[i] = gen.File(gen.NewRand(spec.seeds[order[i]]), spec.opts) + c08.ApplyTweak(tweaks[order[i]]); ach.MergeFilesWith(files, conditions)"}
+		"replay": "files[i] = gen.File(gen.NewRand(spec.seeds[order[i]]), spec.opts) + c08.ApplyTweak(tweaks[order[i]]) + c08.ApplyReroute(reroute[order[i]]); ach.MergeFilesWith(files, conditions)"}
 	files, err := s.Files(order)
 	if err != nil {
 		in["generator_error"] = err.Error()
